@@ -451,7 +451,7 @@ impl FineSched {
             if to.timed_out() {
                 if g.progress == seen {
                     stalled += 1;
-                    if stalled >= 5 {
+                    if stalled >= 20 {
                         g.steals += 1;
                         g.current = me;
                         break;
